@@ -7,6 +7,7 @@
 import PCV.Model.Wire
 import PCV.Model.DrvUtil
 import PCV.Model.IPA
+import PCV.Model.IPALC
 namespace PCV
 namespace DrvIPA
 open Driver IPA
@@ -67,6 +68,25 @@ def getEvals (r : Req) : R (List ((Label × Fp p) × Fp p)) := do
   let pts ← asFes (← need r "epoints")
   let vs ← asFes (← need r "evals")
   pure <| (el.zip (pts.zip vs)).map fun (l, (z, v)) => ((l, z), v)
+
+def asNatss (v : Val) : R (List (List Nat)) := do let xs ← asList v; xs.mapM asNats
+def asLabelss (v : Val) : R (List (List Label)) := do let xs ← asList v; xs.mapM asLabels
+
+/-- linear combinations: `lclabels`, `lccoeffs`, `lcone` (1 = constant term), `lcterms` (label bytes) -/
+def getLCs (r : Req) : R (List (LC.LinComb (Fp p))) := do
+  let labels ← asLabels (← need r "lclabels")
+  let coeffs ← asFess (← need r "lccoeffs")
+  let ones ← asNatss (← need r "lcone")
+  let terms ← asLabelss (← need r "lcterms")
+  pure <| (labels.zip (coeffs.zip (ones.zip terms))).map fun (l, (cs, (os, ts))) =>
+    ⟨l, (cs.zip (os.zip ts)).map fun (c, (o, t)) => (c, if o != 0 then LC.LCTerm.one else LC.LCTerm.poly t)⟩
+
+/-- the outcome class as a label: `ok`, or the name of the error (for requests that compare the
+error kind itself: `ipa.lc_kind`) -/
+def kindOf {α : Type} (x : Except Err α) : Val :=
+  match x with
+  | .ok _ => vNats ("ok".toUTF8.toList.map (·.toNat))
+  | .error e => vNats (e.name.toUTF8.toList.map (·.toNat))
 
 def vProof (π : Proof (Fp p)) : List (String × Val) :=
   [("ls", vFes π.lVec), ("rs", vFes π.rVec), ("fck", vFe π.finalCommKey), ("pc", vFe π.c),
@@ -150,6 +170,43 @@ def handle (p : Nat) (r : Req) : Option (R String) :=
     let ros ← asFes (← need r "ros")
     let rs ← asFes (← need r "rs")
     pure <| exceptReply (batchCheck vk comms qs evals πs ξs ros rs) fun b => [("b", vBool b)]
+  | "ipa.open_combinations" =>
+    let lcs ← getLCs (p := p) r
+    let polys ← getPolys (p := p) r
+    let comms ← getComms (p := p) r
+    let rands ← getRands (p := p) r
+    let qs ← getQueries (p := p) r
+    let ξs ← asFes (← need r "xis")
+    let ros ← asFes (← need r "ros")
+    let rng ← asBool (← need r "rng")
+    let draws ← asFes (← need r "draws")
+    pure <| exceptReply (openCombinations ck lcs polys comms rands qs ξs ros rng draws) fun (πs, a, b, c) =>
+      vProofs πs ++ [("used_xi", .n (ξs.length - a.length)), ("used_ro", .n (ros.length - b.length)),
+                     ("used_draws", .n (draws.length - c.length))]
+  | "ipa.check_combinations" =>
+    let lcs ← getLCs (p := p) r
+    let comms ← getComms (p := p) r
+    let qs ← getQueries (p := p) r
+    let evals ← getEvals (p := p) r
+    let πs ← getProofs (p := p) r
+    let ξs ← asFes (← need r "xis")
+    let ros ← asFes (← need r "ros")
+    let rs ← asFes (← need r "rs")
+    pure <| exceptReply (checkCombinations vk lcs comms qs evals πs ξs ros rs) fun b => [("b", vBool b)]
+  | "ipa.lc_kind" =>
+    -- the outcome class (incl. the error kind) of the combination phase of both functions
+    let lcs ← getLCs (p := p) r
+    let polys ← getPolys (p := p) r
+    let comms ← getComms (p := p) r
+    let rands ← getRands (p := p) r
+    let evals ← getEvals (p := p) r
+    let pk := match combineAllP (polys.zip (rands.zip comms)) lcs with
+      | .error e => Except.error e
+      | .ok as => constructLabeledCommitments (lcInfo as) (lcFlat as)
+    let vkd := match combineAllV comms lcs evals with
+      | .error e => Except.error e
+      | .ok (as, _) => constructLabeledCommitments (lcInfoV as) (lcFlatV as)
+    pure <| okReply [("pkind", kindOf pk), ("vkind", kindOf vkd)]
   | _ => .error "unknown-op"
 
 end DrvIPA
